@@ -257,7 +257,10 @@ func (c16) Gen(rng *rand.Rand, tier string, idx int) Case {
 	case "sql":
 		c.Cfg = append(c.Cfg, []string{"jt", []string{"inner", "left"}[rng.Intn(2)]},
 			[]string{"salias", strconv.Itoa(rng.Intn(2))}, []string{"talias", strconv.Itoa(rng.Intn(2))},
-			[]string{"where", strconv.Itoa(rng.Intn(3) / 2)}, []string{"swap", strconv.Itoa(rng.Intn(4) / 3)})
+			[]string{"where", strconv.Itoa(rng.Intn(3) / 2)}, []string{"swap", strconv.Itoa(rng.Intn(4) / 3)},
+			// pre 1: an earlier LEFT JOIN with MORE ON pairs on an empty second table precedes the
+			// modelled JOIN (identity on the observed columns; exercises per-JOIN key construction)
+			[]string{"pre", strconv.Itoa(rng.Intn(3) / 2)})
 		pid, id := 0, 0
 		for i := 0; i < 14+rng.Intn(10); i++ {
 			switch k := rng.Intn(10); {
@@ -400,7 +403,15 @@ func c16JoinSQL(c Case, arity int, sel, tail string) string {
 		}
 		on = append(on, l+" = "+r)
 	}
-	sql := "SELECT " + strings.ReplaceAll(sel, "m.", tp) + " FROM " + from + " " + join + " ON " + strings.Join(on, " AND ")
+	pre := ""
+	if c04CfgVal(c, "pre", "0") == "1" {
+		var pon []string
+		for i := 0; i <= arity; i++ { // arity+1 pairs, all on the first stream key column
+			pon = append(pon, fmt.Sprintf("%sk0 = p.a%d", sp, i))
+		}
+		pre = " LEFT JOIN pre p ON " + strings.Join(pon, " AND ")
+	}
+	sql := "SELECT " + strings.ReplaceAll(sel, "m.", tp) + " FROM " + from + pre + " " + join + " ON " + strings.Join(on, " AND ")
 	if c04CfgVal(c, "where", "0") == "1" {
 		sql += " WHERE " + tp + "grp = 1"
 	}
@@ -417,6 +428,11 @@ func c16SQL(c Case, arity int) [][][]string {
 	src, err := s.RegisterTable("meta", nil)
 	if err != nil {
 		return [][][]string{{{"register-error", hx(err.Error())}}}
+	}
+	if c04CfgVal(c, "pre", "0") == "1" {
+		if _, err := s.RegisterTable("pre", nil); err != nil {
+			return [][][]string{{{"register-error", hx(err.Error())}}}
+		}
 	}
 	var out [][][]string
 	for _, op := range c.Ops {
